@@ -47,7 +47,7 @@ def run(res, tier, replay):
             nf = len(c.folders)
             def hook_files(files):
                 out = list(files); k = rng.randrange(1, 3)
-                for _ in range(k): out.insert(rng.randrange(0, len(out) + 1), (b"bad%d.bin" % rng.randrange(99), 10, 0, rng.choice([nf, nf + 1, 500, 0xFFFC]), 1, 1, 0x20))
+                for j_ in range(k): out.insert(0 if (j_ == 0 and i % 2 == 1) else rng.randrange(0, len(out) + 1), (b"bad%d.bin" % rng.randrange(99), 10, 0, rng.choice([nf, nf + 1, 500, 0xFFFC]), 1, 1, 0x20))      # every other cabinet: the first entry is a bad one
                 return out
             fp = []; files = []
             for fi, f in enumerate(c.folders):
@@ -76,7 +76,7 @@ def run(res, tier, replay):
     # the repair mode must leave them alone
     import zlib
     for i in range(max(2, n // 4)):
-        sizes = [rng.choice([1000, 5000, 32768]), rng.choice([32768, 2000]), rng.choice([5000, 100])]
+        sizes = [1000, 32768, 5000] if i == 0 else [rng.choice([1000, 5000, 32768]), rng.choice([32768, 2000]), rng.choice([5000, 100])]
         data = bytes(rng.choice(b"abcdefgh \n") for _ in range(sum(sizes))); blocks = []; o = 0
         for sz in sizes:
             co = zlib.compressobj(6, zlib.DEFLATED, -15); blocks.append((b"CK" + co.compress(data[o:o + sz]) + co.flush(), sz)); o += sz
